@@ -46,6 +46,7 @@ type accx struct {
 	param string // setter parameter name
 	subst map[string]string
 	mask  *ast.FuncDecl
+	depth int
 }
 
 func (x *accx) fail(f string, a ...interface{}) string {
@@ -134,24 +135,57 @@ func (x *accx) expr(e ast.Expr) string {
 			}
 			return fmt.Sprintf("(.conv %d %s)", w, x.expr(t.Args[0]))
 		}
-		if id, ok := t.Fun.(*ast.Ident); ok && id.Name == "GetBitMask" && x.mask != nil && len(t.Args) == 2 {
-			// inline the body of GetBitMask: bitMask = <expr>; return bitMask
-			fd := x.mask
-			body := fd.Body.List
-			if len(body) == 2 {
-				if as, ok := body[0].(*ast.AssignStmt); ok && len(as.Lhs) == 1 && len(as.Rhs) == 1 && isReturn(body[1], exprStr(as.Lhs[0])) {
-					inner := &accx{p: x.p, ok: true, subst: map[string]string{
-						paramName(fd, 0): x.expr(t.Args[0]),
-						paramName(fd, 1): x.expr(t.Args[1]),
-					}}
-					s := inner.expr(as.Rhs[0])
-					if !inner.ok {
-						return x.fail("GetBitMask body: %s", inner.why)
-					}
-					return s
+		if id, ok := t.Fun.(*ast.Ident); ok {
+			// a package-level helper with a straight-line body (`x := e` / `x = e` statements, then `return e` or a bare return
+			// of the named result): inline it, arguments and locals substituted (GetBitMask is the one the generator uses)
+			fd := x.p.funcs()[id.Name]
+			if fd != nil && fd.Recv == nil && fd.Body != nil && fd.Type.Results != nil && len(fd.Type.Results.List) == 1 && x.depth < 4 {
+				inner := &accx{p: x.p, ok: true, subst: map[string]string{}, depth: x.depth + 1}
+				np := 0
+				for _, f := range fd.Type.Params.List {
+					np += len(f.Names)
 				}
+				if np != len(t.Args) {
+					return x.fail("call %s: arity", exprStr(t))
+				}
+				for i, a := range t.Args {
+					inner.subst[paramName(fd, i)] = x.expr(a)
+				}
+				named := ""
+				if r := fd.Type.Results.List[0]; len(r.Names) == 1 {
+					named = r.Names[0].Name
+				}
+				for i, st := range fd.Body.List {
+					switch u := st.(type) {
+					case *ast.AssignStmt:
+						if len(u.Lhs) != 1 || len(u.Rhs) != 1 || (u.Tok != token.DEFINE && u.Tok != token.ASSIGN) {
+							return x.fail("%s body: statement %d not in IR", id.Name, i)
+						}
+						l, ok := u.Lhs[0].(*ast.Ident)
+						if !ok {
+							return x.fail("%s body: assignment target", id.Name)
+						}
+						inner.subst[l.Name] = inner.expr(u.Rhs[0])
+					case *ast.ReturnStmt:
+						if i != len(fd.Body.List)-1 {
+							return x.fail("%s body: early return", id.Name)
+						}
+						var out string
+						if len(u.Results) == 1 {
+							out = inner.expr(u.Results[0])
+						} else if len(u.Results) == 0 && named != "" {
+							out = inner.subst[named]
+						}
+						if !inner.ok || out == "" {
+							return x.fail("%s body: %s", id.Name, inner.why)
+						}
+						return out
+					default:
+						return x.fail("%s body: statement %d not in IR", id.Name, i)
+					}
+				}
+				return x.fail("%s body: no return", id.Name)
 			}
-			return x.fail("GetBitMask body not in IR")
 		}
 		return x.fail("call %s", exprStr(t))
 	}
